@@ -46,10 +46,29 @@ def range_pool(rng, spec):
                 continue
             out.append({'start': a, 'end': b, 'abs': False, 't0': None, 'ts': False})
             out.append({'start': a, 'end': b, 'abs': None, 't0': None, 'ts': False})
+    # every representation the API accepts: absolute given or inferred ("absolute iff start or end is a Timestamp"),
+    # each end a float, a Timestamp, an invalid Timestamp() or None, in all mixtures
+    mixed = []
+    for rs in 'ftx':
+        for re_ in 'ftx':
+            for given in (None, None, True, False):
+                for a_none, b_none in ((False, False), (True, False), (False, True)):
+                    is_ts = lambda rep, none: rep == 'x' or (rep == 't' and not none)
+                    absolute = given if given is not None else (is_ts(rs, a_none) or is_ts(re_, b_none))
+                    pts = absolute_pts if absolute else rel_pts
+                    a = None if a_none else rng.choice(pts)
+                    b = None if b_none else rng.choice(pts)
+                    if a is not None and b is not None and b < a:
+                        a, b = b, a
+                    mixed.append({'start': a, 'end': b, 'abs': given, 't0': None, 'rs': rs, 're': re_})
+    rng.shuffle(mixed)
+    out = out + mixed[:60]
     rng.shuffle(out)
     extra = []
     for r in out[:12]:
         # Timestamp arguments (absolute unless told otherwise), and a caller-supplied t0 (whole and fractional)
+        if 'rs' in r:
+            continue
         if r['abs']:
             extra.append(dict(r, ts=True, abs=None))
         else:
@@ -466,6 +485,8 @@ def run(ctx):
         ctx.count('flags:' + ''.join(str(int(x)) for x in c['flags']))
         if c['range'] is not None:
             rs = rec['impl'].get('range_state') or {}
+            ctx.count('range-given:abs=%s,start=%s,end=%s' % (c['range']['abs'], c['range'].get('rs', 't' if c['range'].get('ts') else 'f') if c['range']['start'] is not None or c['range'].get('rs') == 'x' else '-',
+                                                             c['range'].get('re', 't' if c['range'].get('ts') else 'f') if c['range']['end'] is not None or c['range'].get('re') == 'x' else '-'))
             ctx.count('range:%s:%s%s' % ('abs' if rs.get('abs') else 'rel', 'open' if rs.get('start') is None else 'start', 'open' if rs.get('end') is None else 'end'))
             if K.normalise_range(c['range']) != {k: (None if v is None else int(v)) if k != 'abs' else v for k, v in rs.items()}:
                 ctx.broken_correspondence('TimeRange state reported by the implementation differs from the normalisation the check assumes',
@@ -497,7 +518,7 @@ def run(ctx):
     ctx.coverage['rule'] = ('logs: %d hand-written shapes + random logs of <= 12 (thorough: 30) messages with P1-timed / untimed / invalid-P1 messages of 7 types '
                             '(2 without a payload class), 1-3 source ids, junk (incl. bare sync bytes) between messages, one log with a source id first '
                             'seen after 12 messages of its type, one log > 80 KiB; per log: all 32 return_* combinations (with and without filters), all subsets '
-                            'of <= 4 present types (+ an absent type) x sampled ranges (absolute / relative / Timestamp arguments / preset t0, open and closed, '
+                            'of <= 4 present types (+ an absent type) x sampled ranges (absolute given or inferred, each end a float / Timestamp / invalid Timestamp / None in all mixtures, preset t0, open and closed, '
                             'whole and fractional, before / inside / after the log), all subsets of present source ids (+ an absent one) through the constructor '
                             'and through filter_in_place, max_bytes at every message start / header end / message end +-1. A case is distinct by (log, options); '
                             'non-trivial when the log is not empty. Every case is run a second time with all return_* options on to identify the messages returned; yielded pieces are compared both inside the loop and after collecting all results (list(reader)), and header / payload objects must be distinct between results.') % len(K.fixed_logs())
